@@ -160,7 +160,19 @@ func (p *Program) LoadContracts(specDir string) error {
 			t := strings.TrimSpace(l)
 			for _, w := range []string{"func ", "iface "} {
 				if strings.HasPrefix(t, w) {
-					lines[i] = w + expandKey(strings.TrimSpace(t[len(w):]), pkgPath)
+					k := strings.TrimSpace(t[len(w):])
+					if w == "iface " && !strings.HasPrefix(k, "(") {
+						// "T.M(params)" -> "(T).M(params)"
+						params := ""
+						if j := strings.Index(k, "("); j > 0 {
+							params = k[j:]
+							k = k[:j]
+						}
+						if d := strings.LastIndex(k, "."); d > 0 {
+							k = "(" + k[:d] + ")." + k[d+1:] + params
+						}
+					}
+					lines[i] = w + expandKey(k, pkgPath)
 				}
 			}
 		}
